@@ -14,7 +14,8 @@ P("C28",
              "equals what the reference model (recency list, LRU first + binding history) prescribes and the states stay related "
              "(c28_refinement, c28_refinement_step); the binary search returns the first index whose stamp exceeds the target on a "
              "monotone predicate (c28_search_first_true), hence the end position; Evict returns the listed way with the earliest "
-             "last visit (c28_evict_lru); Visit makes a way last with all others stamped earlier (c28_visit_mru); Lookup returns "
+             "last visit (c28_evict_lru), and the stamps are the visit times read off the history (c28_stamp_is_last_visit_time), so "
+             "Evict returns the least recently visited listed way in the literal sense (c28_evict_least_recently_visited); Visit makes a way last with all others stamped earlier (c28_visit_mru); Lookup returns "
              "the way of the most recent operation mentioning the key (c28_lookup_last_bound, independent backward scan of the "
              "history); the only panic is Visit outside [0,wayCount) and the search fuel never runs out "
              "(c28_panic_iff_way_out_of_range); the JSON round trip always preserves the recency state (c28_json_roundtrip_order) "
